@@ -195,6 +195,51 @@ fn curves(rng: &mut Rng) {
     }
 }
 
+/// Outlines handed to `Curve2::from_points_ccw` (the constructor that orients an outline counter-clockwise by a
+/// vote over its convex hull): star-shaped simple polygons with 3 … 12 vertices — triangles, darts and
+/// arrowheads have only three hull vertices — in either winding and starting anywhere.  The result is wound
+/// counter-clockwise, and building it in another frame gives the moved curve, vertex for vertex.
+fn outlines(rng: &mut Rng) {
+    let m = rng.int(3, 12) as usize;
+    let (cx, cy) = (rng.range(-5.0, 5.0), rng.range(-5.0, 5.0));
+    let a0 = rng.range(0.0, 2.0 * std::f64::consts::PI);
+    let dart = rng.chance(0.3);
+    let mut pts: Vec<Point2> = (0..m)
+        .map(|k| {
+            let a = a0 + 2.0 * std::f64::consts::PI * (k as f64 + rng.range(-0.3, 0.3)) / m as f64;
+            // a dart: three far vertices, the rest tucked well inside their triangle
+            let r = if dart { if k % ((m + 2) / 3).max(1) == 0 && k / ((m + 2) / 3).max(1) < 3 { rng.range(4.0, 6.0) } else { rng.range(0.3, 0.8) } } else { rng.range(1.0, 5.0) };
+            Point2::new(cx + r * a.cos(), cy + r * a.sin())
+        })
+        .collect();
+    if rng.chance(0.5) {
+        pts.reverse();
+    }
+    let k = rng.below(m);
+    pts.rotate_left(k);
+    let area2 = |ps: &[Point2]| -> f64 { (0..ps.len()).map(|i| { let (a, b) = (ps[i], ps[(i + 1) % ps.len()]); a.x * b.y - a.y * b.x }).sum() };
+    if area2(&pts).abs() < 0.5 {
+        return;
+    }
+    let fc = rng.chance(0.5);
+    let mut v = Verdict::new();
+    let Ok(c) = Curve2::from_points_ccw(&pts, 1e-9, fc) else { return };
+    let body = |c: &Curve2| -> Vec<Point2> { let p = c.points(); if c.is_closed() { p[..p.len() - 1].to_vec() } else { p.to_vec() } };
+    v.require(area2(&body(&c)) > 0.0, "curve2.from_points_ccw_is_counter_clockwise", || format!("signed area {} for {pts:?}", 0.5 * area2(&body(&c))));
+    for _ in 0..3 {
+        let t = iso2(rng, 30.0);
+        let moved: Vec<Point2> = pts.iter().map(|p| t * p).collect();
+        match Curve2::from_points_ccw(&moved, 1e-9, fc) {
+            Err(e) => v.require(false, "curve2.from_points_ccw_commutes_with_motion", || e.to_string()),
+            Ok(cm) => {
+                let same = cm.count() == c.count() && cm.points().iter().zip(c.points()).all(|(a, b)| (a - t * b).norm() <= 1e-9 * 40.0);
+                v.require(same, "curve2.from_points_ccw_commutes_with_motion", || format!("{pts:?} under {t:?}: {:?} vs moved {:?}", cm.points(), c.points()));
+            }
+        }
+    }
+    emit_oracle_only("xform.outline", &Tok::new(), &Tok::new(), &v);
+}
+
 /// "any rigid motion": besides ordinary ones, motions far below the size of the part (a fixture
 /// correction of a fraction of a micron, one step of an iterative refinement) and pure tiny rotations
 fn iso3_any(rng: &mut Rng, tm: f64) -> (Iso3, bool) {
@@ -283,6 +328,7 @@ pub fn run(rng: &mut Rng, n: usize) {
             case("xform.case", "c03.library_call_panics", || surface_points_and_planes(rng));
         }
         case("xform.case", "c03.library_call_panics", || curves(rng));
+        case("xform.case", "c03.library_call_panics", || outlines(rng));
         case("xform.case", "c03.library_call_panics", || meshes_and_clouds(rng));
     }
 }
